@@ -195,8 +195,9 @@ def sqlite_result_kinds(tbl):
     for c in sel.selected_columns:
         ty = c.type
         out[c.name] = (
-            "datetime" if isinstance(ty, sqa.DateTime) else "date" if isinstance(ty, sqa.Date) else "bool" if isinstance(ty, sqa.Boolean) else None
-        )
+            "datetime" if isinstance(ty, sqa.DateTime) else "date" if isinstance(ty, sqa.Date) else "bool" if isinstance(ty, sqa.Boolean)
+            else "float" if isinstance(ty, sqa.Float) else "decimal" if isinstance(ty, sqa.Numeric) else "int" if isinstance(ty, sqa.Integer) else None
+        )  # fmt: skip
     return out
 
 
